@@ -39,6 +39,7 @@ type c11mon struct {
 	gotRegName map[uint16]string
 	regPub     map[string][][]string // broker publishes waiting for a registration, by topic name
 	usedB      map[uint16]bool       // packet ids the broker has used (a conforming broker does not reuse an id in flight)
+	pings      int                   // MQTT PINGREQs of the sleep pinger the broker has not answered yet
 	ended      bool
 }
 
@@ -117,6 +118,14 @@ func (m *c11mon) After(g *gw.GW, ev string, sn []gw.SNOut, mq []gw.MQOut, setup 
 	}
 	if st.kind == "T" {
 		m.timers++
+	}
+	for _, o := range mq {
+		if o.P.Type == refmqtt.PINGREQ {
+			m.pings++
+		}
+	}
+	if st.kind == "B" && st.mq.Type == refmqtt.PINGRESP {
+		m.pings--
 	}
 	for _, o := range sn {
 		if o.Err != nil {
@@ -253,7 +262,7 @@ func evKind(st step) string {
 }
 
 func (m *c11mon) Key() string {
-	return fmt.Sprintf("view=%s owe=%v cyc=%d d=%d t=%d b=%d rel=%v q2=%v q1=%v reg=%v rp=%v names=%v used=%v", m.view, m.owe, m.cycles, m.depth, m.timers, m.brokerEvs, m.awaitRel, m.gotQ2, m.gotQ1, m.gotReg, m.regPub, m.reg, m.usedB)
+	return fmt.Sprintf("view=%s owe=%v cyc=%d d=%d t=%d b=%d rel=%v q2=%v q1=%v reg=%v rp=%v names=%v used=%v pings=%d", m.view, m.owe, m.cycles, m.depth, m.timers, m.brokerEvs, m.awaitRel, m.gotQ2, m.gotQ1, m.gotReg, m.regPub, m.reg, m.usedB, m.pings)
 }
 func (m *c11mon) Class() string {
 	return fmt.Sprintf("%s/cycle%d/owed%d", m.view, m.cycles, len(m.owe))
@@ -285,7 +294,7 @@ func (m *c11mon) Next(g *gw.GW) []string {
 		}
 		a = append(a, gw.EvC("PINGREQ(wake)", gw.Pingreq("c1")), gw.EvC("CONNECT", gw.Connect("c1", 10, false, false)),
 			gw.EvC("DISCONNECT(30) again", gw.Disconnect(30)), gw.EvC("DISCONNECT(0)", gw.Disconnect(0)))
-		if len(g.S.PendingTimers()) > 0 && m.timers < 3 {
+		if len(g.S.PendingTimers()) > 0 && m.timers < 4 {
 			a = append(a, gw.EvTimer)
 		}
 		// answers to what was flushed at the last wake-up (sent just before sleeping again)
@@ -297,6 +306,9 @@ func (m *c11mon) Next(g *gw.GW) []string {
 		}
 		for mid, tid := range m.gotReg {
 			a = append(a, gw.EvC(fmt.Sprintf("REGACK(mid %d)", mid), gw.Regack(tid, mid, 0)))
+		}
+		if m.pings > 0 {
+			a = append(a, gw.EvB("broker PINGRESP", refmqtt.EncPingresp()))
 		}
 		for mid := range m.awaitRel {
 			a = append(a, gw.EvB(fmt.Sprintf("broker PUBREL(%d)", mid), refmqtt.EncPubrel(mid)))
